@@ -301,6 +301,16 @@ func (x *c16Run) anyOverwritten(a, s string) bool {
 	return false
 }
 
+// anyIntact: some live reference record of (asset, source) still owns its store key
+func (x *c16Run) anyIntact(a, s string) bool {
+	for _, r := range x.ref[[2]string{a, s}] {
+		if !x.overwritten(r) {
+			return true
+		}
+	}
+	return false
+}
+
 func (x *c16Run) refFeed(r c16Rec) {
 	k := [2]string{r.asset, r.source}
 	l := x.ref[k][:0:0]
@@ -383,6 +393,9 @@ func (x *c16Run) checkName(a string) string {
 	}
 	if got.Source != want {
 		switch {
+		case !x.anyIntact(a, want):
+			// every live record of the preferred source lost its store key to another (asset, source) pair with the same concatenation
+			x.fail("C16:key-overwrite", fmt.Sprintf("GetAssetPrice(%q) served source %q although a live %q price was fed: its key was overwritten by another (asset, source) pair", a, got.Source, want))
 		case (strings.HasPrefix(got.Source, "elys") && got.Source != "elys") || (strings.HasPrefix(got.Source, "band") && got.Source != "band"):
 			x.fail("C16:prefix-collision", fmt.Sprintf("GetAssetPrice(%q) served source %q in the slot of a preferred source although a live %q price exists (source name captured by the scan prefix)", a, got.Source, want))
 		case x.anyOverwritten(a, want):
